@@ -399,6 +399,51 @@ def flip_stream(ctx, plans, table, n):
             plans.append(pl)
 
 
+def minimax_post(plans_ref):
+    """C08: the score reported for every completed depth d <= 3 (and for the mate corpus up to depth 5) must equal the
+    value of the VERIFIED evaluator (alpha-beta proved equal to minimax, Props/C08.lean), and the best move must attain it"""
+    def post(ctx, cases, impl):
+        vs = []
+        plans = {pl.request(): pl for pl in plans_ref['plans']}
+        table = plans_ref['table']
+        reqs, owners = [], []
+        for c, a in zip(cases, impl):
+            pl = plans.get(c.req)
+            if pl is None or pl.stream not in ('fixed-depth', 'forced-mates'):
+                continue
+            parts = a.split(' ; ')
+            if len(parts) != len(pl.cmds):
+                continue
+            for part, meta in zip(parts, pl.meta):
+                if meta['kind'] != 'go' or meta['pidx'] is None or table.fen[meta['pidx']] is None or meta['depth'] is None:
+                    continue
+                infos, bests = parse_go_answer(part.split(' '))
+                limit = 5 if pl.stream == 'forced-mates' else 3
+                final = max(meta['depth'], 1)
+                for inf in infos:
+                    if inf['depth'] is not None and 1 <= inf['depth'] <= limit and inf['score'] != '-':
+                        bm = bests[0][0] if bests and inf['depth'] == final else None
+                        reqs.append('spec-search %s %d%s' % (table.fen[meta['pidx']], inf['depth'], (' ' + ' '.join(meta['searchmoves'])) if meta['searchmoves'] else ''))
+                        owners.append((c.req, inf['depth'], inf['score'], bm))
+        # identical requests are evaluated once
+        uniq = list(dict.fromkeys(reqs))
+        ans = dict(zip(uniq, core.run_model(uniq))) if uniq else {}
+        for r, (req, d, score, bm) in zip(reqs, owners):
+            a = ans[r]
+            if a in ('nomoves', 'bad-request', 'badfen'):
+                continue
+            want_score, bestset = a.split(' ')[0], a.split(' ')[1].split(',') if ' ' in a else []
+            if score != want_score:
+                vs.append({'kind': 'property', 'stream': 'minimax-value', 'input': req, 'impl_output': 'depth %d score %s' % (d, score), 'spec_output': a,
+                           'why': 'depth-%d score %s differs from the exact minimax value %s' % (d, score, want_score)})
+            elif bm is not None and bm != '0000' and bm not in bestset:
+                vs.append({'kind': 'property', 'stream': 'minimax-best-move', 'input': req, 'impl_output': 'bestmove %s' % bm, 'spec_output': a,
+                           'why': 'best move %s does not attain the minimax value (moves that do: %s)' % (bm, ','.join(bestset))})
+        ctx.notes.append('scores compared with the verified minimax evaluator: %d (distinct searches %d)' % (len(reqs), len(uniq)))
+        return vs
+    return post
+
+
 def flip_post(ctx, cases, impl):
     vs = []
     ans = {}
@@ -583,7 +628,7 @@ ENGINE_ANCHORS = ['engine_core/src/engine/search.rs', 'engine_core/src/engine.rs
                   'engine_core/src/engine/zobrist_history.rs', 'uci/src/uci/console.rs', 'engine_app/src/main.rs']
 
 
-def make_prop(streams, binary_sessions=None, extra_post=None):
+def make_prop(streams, binary_sessions=None, extra_post=None, minimax=False):
     state = {}
 
     def cases(ctx):
@@ -597,6 +642,8 @@ def make_prop(streams, binary_sessions=None, extra_post=None):
         vs = engine_post(state['plans'], state['table'])(ctx, cs, impl)
         if extra_post:
             vs += extra_post(ctx, cs, impl)
+        if minimax:
+            vs += minimax_post(state)(ctx, cs, impl)
         if binary_sessions:
             bvs, st = binary_cases(ctx, binary_sessions(ctx))
             ctx.notes.append('real engine binary over pipes: %s' % st)
@@ -613,8 +660,9 @@ def register(PROPS):
                             lambda c, pl, t: multi_cycle_stream(c, pl, t, c.scale(25, 600))],
                            binary_sessions=lambda c: c.scale(12, 300))
     PROPS['C07'] = dict(modules=['Inkayaku.Props.C07'], theorems=[], cases=c07c, post=c07p, anchors=ENGINE_ANCHORS)
-    c08c, c08p = make_prop([lambda c, pl, t: depth_stream(c, pl, t, c.scale(150, 4000)), mate_stream])
-    PROPS['C08'] = dict(modules=['Inkayaku.Props.C08'], theorems=[], cases=c08c, post=c08p, anchors=ENGINE_ANCHORS)
+    c08c, c08p = make_prop([lambda c, pl, t: depth_stream(c, pl, t, c.scale(150, 4000)), mate_stream,
+                            lambda c, pl, t: multi_cycle_stream(c, pl, t, c.scale(10, 300))], minimax=True)
+    PROPS['C08'] = dict(modules=['Inkayaku.Props.C08'], theorems=['Inkayaku.C08.' + n for n in 'quiescence_clamp quiescence_ok ab_ok root_exact order_irrelevant best_move_optimal ab_tt_ok root_exact_tt engine_order_is_permutation search_eq_mm specValue_eq_mm specValue_order_irrelevant specBestMoves_eq_optimal search_best_move_optimal mate_found mate_real'.split()], cases=c08c, post=c08p, anchors=ENGINE_ANCHORS)
     c09c, c09p = make_prop([lambda c, pl, t: interrupt_stream(c, pl, t, c.scale(24, 300), c.scale(90, 250))])
     PROPS['C09'] = dict(modules=['Inkayaku.Props.C09'], theorems=[], cases=c09c, post=c09p, anchors=ENGINE_ANCHORS)
     c16c, c16p = make_prop([lambda c, pl, t: multi_cycle_stream(c, pl, t, c.scale(60, 1500)),
